@@ -97,8 +97,14 @@ def verdict_expr(c, r, ir, real):
     extra = "true"
     if c["family"] == "include_path" and r.get("twin_out"):
         extra = ("match %s with Ok a => agree_but_source a %s | _ => false end" % (real, r["twin_out"]))
-    return ('[true; agree_res (fun a b => source_eqb (o_source a) (o_source b)) (gen %s %s %s %s) %s && %s; %s]'
-            % (ir, coq_string(c["wgsl"]), inc, coq_options(c["opts"]), real, extra, "true" if b_holds(c, r) else "false"))
+    # (b) for the include variant, on the real output alone: SOURCE is include_str! of exactly the given path, and
+    # everything else equals the embedded twin
+    b_inc = "true"
+    if c.get("include") is not None:
+        b_inc = ("match %s with Ok o => source_eqb (o_source o) (SrcInclude %s) && %s | _ => true end"
+                 % (real, coq_string(c["include"]), extra.replace("match %s with Ok a =>" % real, "match Ok o with Ok a =>") if extra != "true" else "true"))
+    return ('[true; agree_res (fun a b => source_eqb (o_source a) (o_source b)) (gen %s %s %s %s) %s && %s; %s && %s]'
+            % (ir, coq_string(c["wgsl"]), inc, coq_options(c["opts"]), real, extra, "true" if b_holds(c, r) else "false", b_inc))
 
 
 def verdict_expr_noout(c, r, ir):
